@@ -14,7 +14,7 @@ RULE = ("random diploid call sets (1-10 samples, 0-60 records) x sample maps x o
         "no EOF block; an empty first block; a first block of 1 and of 2 bytes), BGZF BCF and raw BCF (noodles writer), supplied by path, on stdin in one write and on stdin as a pipe whose first write carries only 1, 2, 3, 20 or 300 bytes, with --threads in {1,2,3,4,8,16} (also with the process confined to one and to two CPUs) "
         "(quick: 3 of them per form), each configuration repeated (fresh process = fresh hash seeds): stdout must be "
         "byte-identical across ALL forms and equal exit status, and equal to the proved model's output on the abstract call "
-        "set. non-trivial = call set with >= 2 populations or a projection")
+        "set. non-trivial = call set with >= 2 populations or a projection; the same bytes by path under names suggesting the other container or none (*.vcf for BCF, *.bcf for VCF, *.npy, *.gz, no extension)")
 
 
 def check(rep, tier, seed):
@@ -78,6 +78,14 @@ def check(rep, tier, seed):
                         else:
                             jobs.append((argv0 + ["--threads", str(t)], data))
                         labels.append("%s via %s threads=%d run=%d" % (name, via, t, rep_i))
+        # the NAME of a file is no part of the call data: the same bytes under a name that suggests the other container, no
+        # container at all or something else entirely (the content decides, as it does on stdin)
+        for name, data in forms.items():
+            other = "vcf" if name.startswith("bcf") else "bcf"
+            for ext in (other, rng.choice([other + ".gz", "npy", "txt", "dat", "VCF", "gz", ""])):
+                path = os.path.join(d, "mis_%d_%s%s" % (k, name.replace(".", "_"), "." + ext if ext else ""))
+                open(path, "wb").write(data)
+                jobs.append((argv0 + ["--threads", "2", path], b"")); labels.append("%s via path named *.%s" % (name, ext))
         res = run_cli_many(jobs)
         # stdin as a pipe that delivers its bytes in several writes: the first read() of the tool sees only 1, 2, 3, 20 or
         # 300 bytes (inside the gzip / BCF magic, inside the first BGZF block header, inside the first block)
